@@ -9,7 +9,7 @@
  *   SI_EXEC=1    finally exec argv[1..] (checkpassword success)
  *   SI_PASS=path when the scripted exit status of this run is 0, exec `path` at once, before anything is read (a filter that lets the run through)
  *   SI_EXIT_SEQ  comma list of exit statuses consumed one per run (counter kept in <SI_DIR>/seq); an entry "k<sig>" = read descriptors 0 and 1
- *                to the end, then die from that signal
+ *                to the end, then die from that signal; an entry "e<status>" = exit at once with that status, nothing read
  */
 #include <fcntl.h>
 #include <signal.h>
@@ -82,6 +82,8 @@ int main(int argc, char **argv)
     f = fopen(p, "w"); if (f) { fprintf(f, "%d", k + 1); fclose(f); }
     while (j < k && strchr(q, ',')) { q = strchr(q, ',') + 1; ++j; }
     code = atoi(q);
+    /* "e<status>": this run exits at once with that status and reads nothing (a filter that refuses early; its parent's writes meet EPIPE) */
+    if (*q == 'e') _exit(atoi(q + 1));
     if (*q == 'k') {
       /* "k<sig>": this run reads everything it is given (descriptors 0 and 1) and is then killed by that signal - nothing was queued */
       size_t n; int sig = atoi(q + 1); (void)slurp(0, &n); (void)slurp(1, &n);
